@@ -313,12 +313,12 @@ pub fn run_history_b(cfg: Cfg, ops: &[Op]) -> Option<(usize, Finding)> {
                     match legit(k, &refm) { Some(v) if got == format!("Some({})", v) => { if let Some(e) = refm[k as usize].as_mut() { e.3 = now; } }
                         other => return Some((i, Finding { tags: "C01,C05,C06,C07", what: format!("get({}) returned {} but the reference allows {:?}", k, got, other) })) }
                 } else if cfg.cap.is_none() && legit(k, &refm).is_some() {
-                    return Some((i, Finding { tags: "C03,C01", what: format!("get({}) returned None for a live entry of an unbounded cache", k) }));
+                    return Some((i, Finding { tags: "C03,C01,C07", what: format!("get({}) returned None for a live entry of an unbounded cache", k) }));
                 }
             }
             Op::Contains(k) => {
                 if got == "true" && legit(k, &refm).is_none() { return Some((i, Finding { tags: "C01,C05,C06,C07", what: format!("contains_key({}) is true but the reference holds no live entry", k) })); }
-                if got == "false" && cfg.cap.is_none() && legit(k, &refm).is_some() { return Some((i, Finding { tags: "C03,C01", what: format!("contains_key({}) is false for a live entry of an unbounded cache", k) })); }
+                if got == "false" && cfg.cap.is_none() && legit(k, &refm).is_some() { return Some((i, Finding { tags: "C03,C01,C07", what: format!("contains_key({}) is false for a live entry of an unbounded cache", k) })); }
             }
             Op::Iter => {
                 if got.starts_with("iteration") { return Some((i, Finding { tags: "C01,C08", what: got })); }
@@ -328,7 +328,7 @@ pub fn run_history_b(cfg: Cfg, ops: &[Op]) -> Option<(usize, Finding)> {
                     for part in s.split("), (") { let t = part.trim_matches(|ch| ch == '(' || ch == ')'); if t.is_empty() { continue; }
                         let mut it = t.split(", "); let a: u8 = it.next().unwrap().parse().unwrap(); let b: u8 = it.next().unwrap().parse().unwrap(); v.push((a, b)); } v };
                 for y in &yielded { if !live.contains(y) { return Some((i, Finding { tags: "C01,C05,C06,C07", what: format!("iteration yielded {:?} which is not a live entry", y) })); } }
-                if cfg.cap.is_none() { for l in &live { if !yielded.contains(l) { return Some((i, Finding { tags: "C03,C01", what: format!("iteration did not yield the live entry {:?}", l) })); } } }
+                if cfg.cap.is_none() { for l in &live { if !yielded.contains(l) { return Some((i, Finding { tags: "C03,C01,C07", what: format!("iteration did not yield the live entry {:?}", l) })); } } }
             }
             Op::Sync => {
                 let pk = peek(&c.base);
@@ -425,6 +425,28 @@ fn verif_rt_sync() {
         if !regime_a { seq.push(Op::Sync); }
         histories += 1; steps += seq.len() as u64;
         handle(cfg, &seq, regime_a, &mut findings, &mut seen);
+    }
+    // directed part: invalidate_all followed by a rewrite of the same key, repeated invalidate_all, late-applied reads
+    for cfg in &cfgs {
+        if findings >= 6 { break; }
+        if cfg.cap.is_some() && cfg.cap != Some(6) { continue; }
+        for k in 0..2u8 { for v in 0..2u8 { for d in [5u64, 10] {
+            let j = 1 - k;
+            let templates: Vec<Vec<Op>> = vec![
+                vec![Op::Insert(k, v), Op::Advance(d), Op::InvalidateAll, Op::Insert(k, v + 1), Op::Get(k), Op::Contains(k), Op::Iter, Op::Sync, Op::Get(k), Op::Iter],
+                vec![Op::Insert(k, v), Op::Advance(d), Op::InvalidateAll, Op::Advance(d), Op::Insert(j, v), Op::Advance(d), Op::InvalidateAll, Op::Get(j), Op::Contains(j), Op::Iter, Op::Sync, Op::Get(j)],
+                vec![Op::Insert(k, v), Op::Get(k), Op::Advance(d), Op::Get(k), Op::Sync, Op::Advance(d), Op::Contains(k), Op::Get(k), Op::Sync],
+                vec![Op::Insert(k, v), Op::Insert(j, v), Op::Advance(d), Op::InvalidateAll, Op::Sync, Op::Iter, Op::Insert(k, v + 1), Op::Sync, Op::Get(k), Op::Iter],
+                vec![Op::Insert(k, v), Op::Sync, Op::Invalidate(k), Op::Get(k), Op::Insert(k, v + 1), Op::Get(k), Op::Sync, Op::Get(k)],
+            ];
+            for t in &templates {
+                for regime_a in [true, false] {
+                    let seq: Vec<Op> = if regime_a { t.iter().cloned().filter(|o| *o != Op::Sync).collect() } else { t.clone() };
+                    histories += 1; steps += seq.len() as u64;
+                    handle(*cfg, &seq, regime_a, &mut findings, &mut seen);
+                }
+            }
+        }}}
     }
     println!("RT-SUMMARY harness=sync tier={} seed={} histories={} steps={} configs={} alphabet={} exhaustive_len={} sampled={}x{} findings={}",
         tier, seed, histories, steps, cfgs.len(), ops_a.len(), exh_len, rnd_n, rnd_len, findings);
